@@ -20,7 +20,8 @@ def describe(tier):
     return {
         "rule": f"(trees) every well-formed condition expression with <= {b['tree_n']} atoms and <= 2 bracket pairs, atom kinds [n] [nP] [nPa..b] "
                 "[UBi] rotating through all 4x4 kind pairs by position, as (i) condition tree, (ii) unresolved AHB tree of 'Muss e', 'X e', "
-                "'Muss e Soll e K', (iii) resolved tree with each of the 4 flag combinations; (inputs) every ContentEvaluationResult generated "
+                "'Muss e Soll e K', (iii) resolved tree with each of the 4 flag combinations (every third expression after the same trees went through the two "
+                "Concise*TreeSchema dumps); (inputs) every ContentEvaluationResult generated "
                 f"for all (m,n) <= {b['gen']} requirement/format keys, with and without packages and id; every CategorizedKeyExtract of those "
                 "expressions, sanitised and unsanitised, incl. repeated and descending keys; EvaluatedFormatConstraint in {True,False} x "
                 "{None,'','msg'}; (results) every AhbExpressionEvaluationResult / RequirementConstraintEvaluationResult / "
@@ -112,14 +113,22 @@ def roundtrip(kind, obj, case):
 ENV_RC = {"1": "F", "2": "U", "3": "?", "4": "F", "11": "F", "12": "U", "13": "?", "14": "F", "492": "F", "493": "U"}
 
 
-def check_tree_expr(expr):
+def check_tree_expr(expr, concise_first=False):
     """all trees derived from one condition expression"""
     I = _I
     out = []
     n = 0
     env = lambda: I.Env(rc=ENV_RC, fc={"901": (True, None)}, packages=PACKAGES)  # noqa: E731
     t = I.parse_condition_expression_to_tree(expr)
-    out += roundtrip("tree", t, {"expr": expr, "what": "condition-tree"})
+    if concise_first:
+        # the other public tree schemata dump the same trees; using them first must not influence TreeSchema
+        from ahbicht.json_serialization.concise_condition_key_tree_schema import ConciseConditionKeyTreeSchema
+        from ahbicht.json_serialization.concise_tree_schema import ConciseTreeSchema
+
+        for sch in (ConciseConditionKeyTreeSchema, ConciseTreeSchema):
+            for tree in (t, I.run(I.parse_expression_including_unresolved_subexpressions("Muss " + expr, resolve_packages=True), env())):
+                I.try_call(sch().dump, tree)
+    out += roundtrip("tree", t, {"expr": expr, "what": "condition-tree", "concise_first": concise_first})
     n += 1
     for ahb in ("Muss " + expr, "X" + expr, f"Muss {expr} Soll{expr}K"):
         ta = I.parse_ahb_expression_to_single_requirement_indicator_expressions(ahb)
@@ -191,7 +200,7 @@ def run_item(item):
         for i, expr in enumerate(_tree_exprs(item["n"])):
             if i % item["parts"] != item["part"]:
                 continue
-            vs, n = check_tree_expr(expr)
+            vs, n = check_tree_expr(expr, concise_first=(i % 3 == 0))
             acc(vs, n, ".." in expr or "UB" in expr, {"expr": expr, "objects": n})
     elif fam == "cer":
         from ahbicht.models.categorized_key_extract import CategorizedKeyExtract
@@ -272,7 +281,7 @@ def replay(case):
         worker_init()
     what = case.get("what")
     if what in ("condition-tree",) or (what == "categorized-key-extract"):
-        vs, _ = check_tree_expr(case["expr"])
+        vs, _ = check_tree_expr(case["expr"], case.get("concise_first", False))
     elif what in ("unresolved-ahb-tree", "resolved-tree"):
         e = case["expr"]
         # recover the inner condition expression
